@@ -95,6 +95,15 @@ pub mod rw {
 }
 
 pub open spec fn be32(v: u32) -> Seq<u8> { seq![(v >> 24) as u8, (v >> 16) as u8, (v >> 8) as u8, v as u8] }
+/// inverse of be32 on 4 bytes
+pub open spec fn u32_of_be(b: Seq<u8>) -> u32 { ((b[0] as u32) << 24) | ((b[1] as u32) << 16) | ((b[2] as u32) << 8) | (b[3] as u32) }
+pub proof fn lemma_be32_inv(v: u32)
+    ensures u32_of_be(be32(v)) == v, be32(v).len() == 4
+{
+    let b0 = (v >> 24) as u8; let b1 = (v >> 16) as u8; let b2 = (v >> 8) as u8; let b3 = v as u8;
+    assert(be32(v)[0] == b0 && be32(v)[1] == b1 && be32(v)[2] == b2 && be32(v)[3] == b3);
+    assert((((v >> 24) as u8 as u32) << 24) | (((v >> 16) as u8 as u32) << 16) | (((v >> 8) as u8 as u32) << 8) | (v as u8 as u32) == v) by (bit_vector);
+}
 pub uninterp spec fn be64(v: u64) -> Seq<u8>;
 /// the checksum of codeq's Crc32fast hasher over a byte string (ASSUMED to be a function of the bytes)
 pub uninterp spec fn crc(s: Seq<u8>) -> u64;
@@ -138,20 +147,31 @@ pub mod codeq {
         /// which error kinds a decoder of this type may report for a given remaining input (C09: a complete but invalid record
         /// must not be reported as UnexpectedEof, which recovery treats as an incomplete tail)
         spec fn err_ok(input: Seq<u8>, k: super::IoErrorKind) -> bool;
+        /// the parse function: the value a decoder reads from the front of `s` and how many bytes it takes, None when it fails
+        /// (the decoder IS this function: contract (F) of Decode::decode)
+        spec fn dec(s: Seq<u8>) -> Option<(Self, nat)>;
+        /// round trip: an encoding followed by anything parses back to the value and takes exactly the encoding.
+        /// PROVED for RaftLogState and WALRecord (prelude/codec_recs.rs), for u8 and Option<T>; ASSUMED for the user's codecs (it is their round-trip law)
+        proof fn law_dec_enc(v: Self, rest: Seq<u8>)
+            ensures Self::dec(v.enc() + rest) == Some((v, v.enc().len()));
     }
     pub trait Encode: EncSpec {
         fn encode<W: rw::Write>(&self, w: W) -> (res: Result<usize, io::Error>)
             ensures
                 // C12: exactly enc(self) is appended and its length is reported
-                res is Ok ==> w.kept() && w.after() == w.written() + self.enc() && res->Ok_0 == self.enc().len();
+                /*[C12 encode_appends_exactly_enc_and_reports_its_length]*/ res is Ok ==> w.kept() && w.after() == w.written() + self.enc() && res->Ok_0 == self.enc().len();
     }
     pub trait Decode: EncSpec {
         fn decode<R: rw::Read>(r: R) -> (res: Result<Self, io::Error>)
             ensures
                 // C12 (S): a decoded value's encoding is exactly the consumed bytes; nothing beyond is consumed
-                res is Ok ==> r.kept() && r.rem().len() >= res->Ok_0.enc().len() && r.rem().take(res->Ok_0.enc().len() as int) == res->Ok_0.enc() && r.after() == r.rem().skip(res->Ok_0.enc().len() as int)
+                /*[C12 a_decoded_value_reencodes_to_exactly_the_consumed_bytes]*/ res is Ok ==> r.kept() && r.rem().len() >= res->Ok_0.enc().len() && r.rem().take(res->Ok_0.enc().len() as int) == res->Ok_0.enc() && r.after() == r.rem().skip(res->Ok_0.enc().len() as int)
                     && r.pos_after() == r.pos() + res->Ok_0.enc().len(),
-                res is Err ==> Self::err_ok(r.rem(), res->Err_0.kind);
+                // C12 (F): decoding is the parse function of the remaining bytes (I/O errors of the underlying reader are not modelled in the
+                // codec contracts: byteorder/codeq/user codecs fail only for what the bytes are)
+                /*[C12 decode_accepts_exactly_what_the_parse_function_accepts]*/ res is Ok <==> Self::dec(r.rem()) is Some,
+                /*[C12 decode_returns_what_the_parse_function_returns]*/ res is Ok ==> Self::dec(r.rem()) == Some((res->Ok_0, res->Ok_0.enc().len())),
+                /*[C09 error_kind_tells_incomplete_from_invalid]*/ res is Err ==> Self::err_ok(r.rem(), res->Err_0.kind);
     }
 }
 use rw::Read as _;
@@ -164,12 +184,31 @@ use codeq::EncSpec as _;
 impl codeq::EncSpec for u8 {
     open spec fn enc(&self) -> Seq<u8> { seq![*self] }
     open spec fn err_ok(input: Seq<u8>, k: IoErrorKind) -> bool { true }
+    open spec fn dec(s: Seq<u8>) -> Option<(Self, nat)> { if s.len() >= 1 { Some((s[0], 1nat)) } else { None } }
+    proof fn law_dec_enc(v: Self, rest: Seq<u8>) { assert((seq![v] + rest)[0] == v); }
 }
 impl codeq::Encode for u8 { #[verifier::external_body] fn encode<W: rw::Write>(&self, w: W) -> (res: Result<usize, io::Error>) { unimplemented!() } }
 impl codeq::Decode for u8 { #[verifier::external_body] fn decode<R: rw::Read>(r: R) -> (res: Result<Self, io::Error>) { unimplemented!() } }
 impl<T: codeq::EncSpec> codeq::EncSpec for Option<T> {
     open spec fn enc(&self) -> Seq<u8> { match self { None => seq![0u8], Some(v) => seq![1u8] + v.enc() } }
     open spec fn err_ok(input: Seq<u8>, k: IoErrorKind) -> bool { true }
+    open spec fn dec(s: Seq<u8>) -> Option<(Self, nat)> {
+        if s.len() < 1 { None } else if s[0] == 0 { Some((None, 1nat)) } else if s[0] == 1 {
+            match T::dec(s.skip(1)) { Some((v, n)) => Some((Some(v), 1 + n)), None => None }
+        } else { None }
+    }
+    proof fn law_dec_enc(v: Self, rest: Seq<u8>) {
+        match v {
+            None => { assert((seq![0u8] + rest)[0] == 0); }
+            Some(x) => {
+                let s = (seq![1u8] + x.enc()) + rest;
+                assert(s[0] == 1);
+                assert(s.skip(1) =~= x.enc() + rest);
+                T::law_dec_enc(x, rest);
+                assert((seq![1u8] + x.enc()).len() == 1 + x.enc().len());
+            }
+        }
+    }
 }
 impl<T: codeq::Encode> codeq::Encode for Option<T> { #[verifier::external_body] fn encode<W: rw::Write>(&self, w: W) -> (res: Result<usize, io::Error>) { unimplemented!() } }
 impl<T: codeq::Decode> codeq::Decode for Option<T> { #[verifier::external_body] fn decode<R: rw::Read>(r: R) -> (res: Result<Self, io::Error>) { unimplemented!() } }
